@@ -1251,7 +1251,7 @@ PROPS = {
              " The flow-control credit handed to the client's request-body source (consume calls logged by the scripted source) is part of every compared answer: never ahead of what was read from it, and in the end exactly the body bytes the origin accepted (theorem request_credit_exact) - a third of the cases have an origin that accepts the request in pieces of 0-20 bytes"
              " Response direction across timer restarts (suite c17restart): 5 shapes of a POST whose body trickles in (one byte every T/10) while the client takes 0-25 of the 26 response body bytes and then nothing for 1.2-3.5 T: the whole body must still be delivered"
              " Stalled forwarded downloads (see C14): 5 shapes over HTTP/1.1, 2, 3, plain and chunked bodies",
-        explanation="request_credit_exact, head_in_pieces_not_credited (flow-control credit of the request body under every acceptance schedule); theorems segmentation_and_backpressure_independent, independent_after_origin_close, delivery_monotone, "
+        explanation="request_credit_exact, head_in_pieces_not_credited, request_credit_schedule_independent (flow-control credit of the request body under every acceptance schedule); theorems segmentation_and_backpressure_independent, independent_after_origin_close, delivery_monotone, "
                     "chunked_body_delivered_exactly, content_length_body_delivered_exactly, close_delimited_body_delivered_exactly, "
                     "bodiless_response_ends_with_head, head_204_304_are_bodiless, interim_response_is_transparent, "
                     "hop_by_hop_headers_removed, forwarded_headers_are_origin_headers, end_to_end_headers_kept, request_line_preserved, "
